@@ -45,6 +45,108 @@ theorem isSpace_of_isTimeNumChar (c : Char) (h : isTimeNumChar c = true) : isSpa
 theorem ne_of_isTimeNumChar (c d : Char) (h : isTimeNumChar c = true) (hd : isTimeNumChar d = false) : c ≠ d := by
   intro e; subst e; simp [hd] at h
 
+/-! ### the time-pattern recogniser splits a string into number part and rest -/
+
+theorem mem_takeWhile_imp {p : Char → Bool} {l : List Char} {c : Char} (h : c ∈ l.takeWhile p) : p c = true := by
+  induction l with
+  | nil => simp at h
+  | cons a r ih =>
+    simp only [List.takeWhile] at h
+    split at h
+    · rename_i hp
+      rcases List.mem_cons.mp h with rfl | h
+      · exact hp
+      · exact ih h
+    · simp at h
+
+theorem isTimeNumChar_of_isDigit (c : Char) (h : c.isDigit = true) : isTimeNumChar c = true := by
+  simp [isTimeNumChar, h]
+
+theorem takeWhile_digits_ok (s : List Char) : ∀ c ∈ s.takeWhile Char.isDigit, isTimeNumChar c = true := by
+  intro c hc
+  exact isTimeNumChar_of_isDigit c (mem_takeWhile_imp hc)
+
+theorem optMinus_spec (s : List Char) :
+    s = (optMinus s).1 ++ (optMinus s).2 ∧ ∀ c ∈ (optMinus s).1, isTimeNumChar c = true := by
+  unfold optMinus
+  split
+  · refine ⟨rfl, ?_⟩
+    intro c hc; simp at hc; subst hc; decide
+  · exact ⟨rfl, by simp⟩
+
+theorem optFrac_spec (s : List Char) :
+    s = (optFrac s).1 ++ (optFrac s).2 ∧ ∀ c ∈ (optFrac s).1, isTimeNumChar c = true := by
+  unfold optFrac
+  split
+  · rename_i r
+    split
+    · exact ⟨rfl, by simp⟩
+    · refine ⟨by simp [List.takeWhile_append_dropWhile], ?_⟩
+      intro c hc
+      rcases List.mem_cons.mp hc with rfl | hc
+      · decide
+      · exact takeWhile_digits_ok r c hc
+  · exact ⟨rfl, by simp⟩
+
+theorem optExp_spec (s : List Char) :
+    s = (optExp s).1 ++ (optExp s).2 ∧ ∀ c ∈ (optExp s).1, isTimeNumChar c = true := by
+  unfold optExp
+  split
+  · rename_i c r
+    split
+    · rename_i hc
+      split
+      · exact ⟨rfl, by simp⟩
+      · have hm := optMinus_spec r
+        refine ⟨?_, ?_⟩
+        · simp only [List.cons_append, List.append_assoc, List.takeWhile_append_dropWhile]
+          rw [← hm.1]
+        · intro d hd
+          rcases List.mem_cons.mp hd with rfl | hd
+          · rcases hc with rfl | rfl <;> decide
+          · rcases List.mem_append.mp hd with hd | hd
+            · exact hm.2 d hd
+            · exact takeWhile_digits_ok _ d hd
+    · exact ⟨rfl, by simp⟩
+  · exact ⟨rfl, by simp⟩
+
+theorem timeNumSplit_spec (s : List Char) :
+    s = (timeNumSplit s).1 ++ (timeNumSplit s).2 ∧ ∀ c ∈ (timeNumSplit s).1, isTimeNumChar c = true := by
+  have h1 := optMinus_spec s
+  have h3 := optFrac_spec ((optMinus s).2.dropWhile Char.isDigit)
+  have h4 := optExp_spec (optFrac ((optMinus s).2.dropWhile Char.isDigit)).2
+  constructor
+  · simp only [timeNumSplit, List.append_assoc]
+    rw [← h4.1, ← h3.1, List.takeWhile_append_dropWhile, ← h1.1]
+  · intro c hc
+    simp only [timeNumSplit, List.mem_append] at hc
+    rcases hc with ((hc | hc) | hc) | hc
+    · exact h1.2 c hc
+    · exact takeWhile_digits_ok _ c hc
+    · exact h3.2 c hc
+    · exact h4.2 c hc
+
+/-- every string the recogniser accepts is `<num><ws>s` or `<num><ws>ms` with `num` over the number alphabet
+    and `ws` whitespace -/
+theorem matchTime_decompose (s : List Char) (h : matchTime s = true) :
+    ∃ num ws, (∀ c ∈ num, isTimeNumChar c = true) ∧ (∀ c ∈ ws, isSpace c = true) ∧
+      (s = num ++ ws ++ ['s'] ∨ s = num ++ ws ++ ['m', 's']) := by
+  have hs := timeNumSplit_spec s
+  refine ⟨(timeNumSplit s).1, (timeNumSplit s).2.takeWhile isSpace, hs.2,
+    fun c hc => mem_takeWhile_imp hc, ?_⟩
+  simp only [matchTime, Bool.or_eq_true, beq_iff_eq] at h
+  have hr : (timeNumSplit s).2 = (timeNumSplit s).2.takeWhile isSpace ++ (timeNumSplit s).2.dropWhile isSpace :=
+    (List.takeWhile_append_dropWhile).symm
+  rcases h with h | h
+  · left
+    rw [h] at hr
+    calc s = (timeNumSplit s).1 ++ (timeNumSplit s).2 := hs.1
+      _ = _ := by rw [List.append_assoc, ← hr]
+  · right
+    rw [h] at hr
+    calc s = (timeNumSplit s).1 ++ (timeNumSplit s).2 := hs.1
+      _ = _ := by rw [List.append_assoc, ← hr]
+
 /-! ### digits of `Nat.repr` -/
 
 theorem isDigit_of_mem_repr (n : Nat) (c : Char) (h : c ∈ (Nat.repr n).toList) : c.isDigit = true := by
